@@ -12,11 +12,12 @@ import (
 )
 
 type c07Case struct {
-	Cfg    LimitCfg `json:"cfg"`
-	Prefix []Sample `json:"prefix"`
-	Idle   Sample   `json:"idle"`    // (a) app-limited, non-drop sample; in-flight = Idle.Inf % bound
-	RunRTT int64    `json:"run_rtt"` // (b) constant RTT used when no baseline is set (always for gradient2)
-	AIMDN  int      `json:"aimd_n"`
+	PrefixTimes int      `json:"prefix_times,omitempty"` // the prefix history is fed that many times over (thousands of samples before the judged part)
+	Cfg         LimitCfg `json:"cfg"`
+	Prefix      []Sample `json:"prefix"`
+	Idle        Sample   `json:"idle"`    // (a) app-limited, non-drop sample; in-flight = Idle.Inf % bound
+	RunRTT      int64    `json:"run_rtt"` // (b) constant RTT used when no baseline is set (always for gradient2)
+	AIMDN       int      `json:"aimd_n"`
 	// BelowFloor (gradient, gradient2): the configured initial estimate lies below the queue allowance (a valid
 	// configuration: min <= initial <= max, allowance <= max). Nothing is claimed about drops or growth from such a
 	// state, but the demand gate is unconditional: idle, drop-free samples must leave the estimate where it is.
@@ -52,6 +53,7 @@ func genC07(t *rapid.T) c07Case {
 	}
 	if rapid.IntRange(0, 3).Draw(t, "hasPrefix") > 0 {
 		c.Prefix = genSamples(t, c.Cfg, 150)
+		c.PrefixTimes = rapid.SampledFrom([]int{1, 1, 1, 1, 1, 1, 3, 10, 30}).Draw(t, "prefixTimes")
 	}
 	c.Idle = Sample{RTT: genRTT().Draw(t, "idleRTT"), Inf: rapid.IntRange(0, 1<<20).Draw(t, "idleInf")}
 	c.RunRTT = rapid.OneOf(rapid.Int64Range(1, 1000), rapid.Int64Range(1, 10_000_000_000)).Draw(t, "runRTT")
@@ -110,7 +112,11 @@ func runC07(_ *testing.T, c c07Case) kit.Outcome {
 	if len(c.BelowFloor) > 0 {
 		return kit.Outcome{NonTrivial: true, Labels: []string{"algo:" + algo, "below-allowance-idle"}}
 	}
-	for _, s := range c.Prefix {
+	prefix := c.Prefix
+	for r := 1; r < c.PrefixTimes; r++ {
+		prefix = append(prefix, c.Prefix...)
+	}
+	for _, s := range prefix {
 		before := b.Outer.EstimatedLimit()
 		inf := s.inflight(before)
 		b.Outer.OnSample(s.Start, s.RTT, inf, s.Drop)
